@@ -309,7 +309,8 @@ MustNotFail(g, req) ==
 
 (* classification of an Err result (for the evidence; "violation" is the only bad one) *)
 ErrClass(g, req) ==
-  IF ~SomeSinglePathSuffices(g, req) THEN "no_single_path"
+  IF g.payer = g.payee \/ PathsFrom(g, req, g.payer, {g.payer}) = {} THEN "unreachable"
+  ELSE IF ~SomeSinglePathSuffices(g, req) THEN "no_single_path"
   ELSE IF ~MustNotFail(g, req) THEN "limits_binding"
   ELSE "violation"
 =============================================================================
